@@ -48,7 +48,7 @@ API_KINDS = ['group', 'env']
 TEX_KINDS = ['brace', 'begingroup', 'center', 'quote', 'math', 'cell', 'textbf', 'mbox', 'parenmath', 'displaymath',
              'equation', 'itemize', 'minipage', 'footnote', 'dollars', 'figurestar', 'multicolumn']
 MATH_KINDS = ('math', 'parenmath', 'displaymath', 'equation', 'dollars')
-ARG_KINDS = ('textbf', 'mbox', 'footnote', 'multicolumn')
+ARG_KINDS = ('textbf', 'mbox', 'footnote', 'multicolumn', 'mboxm')
 
 
 def generate(seed, tier):
@@ -71,8 +71,6 @@ def generate(seed, tier):
             if depth >= 6:
                 continue
             k = r.choice(TEX_KINDS)
-            if k == 'cell' and 'cell' in stack:
-                k = 'brace'
             ops.append({'op': 'OPEN', 'kind': k})
             stack.append(k)
             depth += 1
@@ -355,11 +353,11 @@ OPEN_TEX = {'brace': '{', 'begingroup': '\\begingroup ', 'center': '\\begin{cent
             'cell': '\\begin{tabular}{ll}', 'textbf': '\\textbf{', 'mbox': '\\mbox{', 'parenmath': '\\( ', 'displaymath': '\\[ ',
             'equation': '\\begin{equation}', 'itemize': '\\begin{itemize}\\item ', 'minipage': '\\begin{minipage}{3cm}',
             'footnote': '\\footnote{', 'dollars': '$$ ', 'figurestar': '\\begin{figure*}',
-            'multicolumn': '\\begin{tabular}{ll}\\multicolumn{2}{c}{'}
+            'multicolumn': '\\begin{tabular}{ll}\\multicolumn{2}{c}{', 'mboxm': '\\mbox{'}
 CLOSE_TEX = {'brace': '}', 'begingroup': '\\endgroup ', 'center': '\\end{center}', 'quote': '\\end{quote}', 'math': '$',
              'cell': '\\end{tabular}', 'textbf': '}', 'mbox': '}', 'parenmath': '\\)', 'displaymath': '\\]',
              'equation': '\\end{equation}', 'itemize': '\\end{itemize}', 'minipage': '\\end{minipage}', 'footnote': '}',
-             'dollars': '$$', 'figurestar': '\\end{figure*}', 'multicolumn': '}\\end{tabular}'}
+             'dollars': '$$', 'figurestar': '\\end{figure*}', 'multicolumn': '}\\end{tabular}', 'mboxm': '}'}
 PREAMBLE = ('\\documentclass{article}\\newcounter{cx}\\newif\\ifsw\\makeatletter\\def\\pr@be{L}\\makeatother\\def\\pr{O}'
             + ''.join('\\def\\%s{%s0}' % (n, n) for n in ALLNAMES) + '\\begin{document}')
 
@@ -373,6 +371,7 @@ def compile_tex(ops, global_prefix=False):
     stack = []
     in_arg = 0
     in_math = 0
+    math_saved = []
 
     def probe(what):
         if what in NAMES:
@@ -404,10 +403,12 @@ def compile_tex(ops, global_prefix=False):
         o = op['op']
         if o == 'OPEN':
             k = op['kind']
-            if k == 'cell' and 'cell' in stack:
+            if in_math and k not in ('begingroup', 'mbox'):
                 k = 'brace'
-            if in_math and k != 'begingroup':
-                k = 'brace'
+            if in_math and k == 'mbox':
+                math_saved.append(in_math)      # text mode again inside the box
+                in_math = 0
+                k = 'mboxm'
             stack.append(k)
             src.append(OPEN_TEX[k])
             m.open(k)
@@ -425,6 +426,8 @@ def compile_tex(ops, global_prefix=False):
                 in_arg -= 1
             if k in MATH_KINDS:
                 in_math -= 1
+            if k == 'mboxm':
+                in_math = math_saved.pop()
         elif o == 'CELLSEP':
             if stack and stack[-1] == 'cell':
                 src.append(' & ')
@@ -496,6 +499,12 @@ def compile_tex(ops, global_prefix=False):
         k = stack.pop()
         src.append(CLOSE_TEX[k])
         m.close()
+        if k in ARG_KINDS:
+            in_arg -= 1
+        if k in MATH_KINDS:
+            in_math -= 1
+        if k == 'mboxm':
+            in_math = math_saved.pop()
     probe('all')
     return PREAMBLE + ''.join(src) + '\\end{document}', ''.join(e for e in exp if e), m
 
